@@ -7,7 +7,7 @@ import sys, os, json, glob, subprocess, shutil
 rnd = sys.argv[1]
 ids = sys.argv[2:] or [f"C{i:02d}" for i in range(1, 18)]
 props = {json.loads(l)["id"]: json.loads(l) for l in open("/verif/properties.jsonl")}
-ASSUME = os.environ.get("ASSUME") or open("/verif/tools/round_assume.txt").read().strip()
+ASSUME = os.environ.get("ASSUME") if os.environ.get("ASSUME") is not None else open("/verif/tools/round_assume.txt").read().strip()
 for pid in ids:
     wt = f"/tmp/w{rnd}-{pid}"
     if not os.path.isdir(wt):
@@ -18,6 +18,8 @@ for pid in ids:
     tried = []
     for m in sorted(glob.glob(f"/verif/seeded/{pid}-*/meta.json")):
         tried.append("  - " + json.load(open(m))["what"])
+    if os.environ.get("NO_TRIED"):
+        tried = []
     tried_txt = ("NOTE: other engineers already tried the following ideas for this property, so do NOT repeat them or close variants - choose DIFFERENT sites and mechanisms:\n" + "\n".join(tried) + "\n") if tried else ""
     prompt = f'''You are working alone in a scratch git worktree of the Rust crate "Narsese.rs" (a library for Narsese, the language of the NARS reasoning system: an enum term model and a lexical term model, ASCII / LaTeX / Han parsers and formatters, a lexical->enum "fold", a Typst renderer). Your worktree is {wt} . Work ONLY inside that directory; never touch /repo, /verif or any other path. There is no network: always pass --offline to cargo and export CARGO_NET_OFFLINE=true. A Cargo.lock is already in place. NEVER use `git stash` (the stash is shared between all worktrees of this repository and other engineers work in sibling worktrees): to get back to a clean tree save your diff to a file (`git diff -- src > x.diff`), `git checkout src`, and later `git apply x.diff`. Use a private build directory: export CARGO_TARGET_DIR={wt}/target . `cargo test --workspace --offline` currently passes 157 unit tests + 3 doc tests.
 
